@@ -236,9 +236,12 @@ def check_steppers(run, ex, jnp, rng, tier):
     nsamp = 0
     for D in (1, 2, 3):
         for N in zoo.grid_sizes(D, tier)[:2]:
-            for sname, skw, gname, gkw in pairs(D, rng):
+            for pi_, (sname, skw, gname, gkw) in enumerate(pairs(D, rng)):
                 if D not in registry.dims_of(sname) or D not in registry.dims_of(gname):
                     continue
+                if tier != "quick" and pi_ % 4 == 0:
+                    import jax as _jax
+                    _jax.clear_caches()          # thousands of distinct compiled steppers otherwise exhaust the process's memory maps (LLVM: cannot allocate memory)
                 L, dt = float(rng.choice([3.0, 2 * np.pi, 0.8])), float(rng.choice([0.05, 0.01]))
                 orders = (0, 1, 2, 3, 4) if registry.has_order(registry.stepper_classes()[gname]) else (None,)
                 if tier == "quick" and D > 1:
